@@ -28,13 +28,18 @@ SEQ_NOTE = ("Trusts the reference model in harness/nitrocheck/world.go (epoch mo
 
 prop("C01", "nitrocheck",
      [dict(name="TestC01", quick=1500, thorough=6000, steps=50),
-      dict(name="TestC01Readers", quick=500, thorough=1500, steps=30)],
+      dict(name="TestC01Readers", quick=500, thorough=1500, steps=30),
+      dict(name="TestC01Conc", pkg="conccheck", quick=2500, thorough=4000, env={"GOMAXPROCS": "2"})],
      rule="rapid state machine over Put/Delete/DeleteNode/NewSnapshot/Open/Close(any order)/GC/await and delete->snapshot->re-insert chains with up to 8 snapshots "
           "held, both comparators and memory modes; after EVERY step every open snapshot is scanned and compared (bytes, order, once each, Count) with the content "
           "frozen in the model at its creation. TestC01Readers adds 1-4 reader goroutines that keep scanning (refresh rate 0/1/3) and visiting snapshots they hold "
           "while the main goroutine mutates, creates/closes other snapshots and forces collection. Non-trivial case: a history in which a non-empty snapshot was "
           "scanned after a key it contains was deleted in a later epoch, or re-inserted later, or another (older or newer) snapshot was retired after its creation, "
-          "or a collection pass removed a version since its creation. Distinct = distinct hash of the rendered history (+ reader assignment).",
+          "or a collection pass removed a version since its creation. Distinct = distinct hash of the rendered history (+ reader assignment). The per-step scans of TestC01 use a "
+          "refresh rate drawn per case (0/1/2/7). TestC01Conc (schedule owned by the harness): 1-3 rounds of 2-3 controlled writers (contended puts/deletes of 2-4 keys, "
+          "same-epoch and cross-epoch) and 1-2 controlled snapshot readers (refresh rate 0-2) under a drawn schedule; every concurrent scan must equal the held "
+          "snapshot's content, every snapshot sealed after a round must have Count() == its scan, rounds must be linearizable; non-trivial there: reader scans ran with "
+          "pre-emptions and overlapping writer operations.",
      technique="model-based stateful property testing (frozen snapshot copies as oracle), plus concurrent reader goroutines",
      design_ref="DESIGN.md §3 C01",
      level_text="Generated histories with many simultaneously open snapshots, each compared in full after every step against an immutable model copy; "
@@ -215,10 +220,15 @@ prop("C16", "slcheck",
      level_note=SCHED_NOTE)
 
 prop("C17", "slcheck",
-     [dict(name="TestC17", quick=20000, thorough=60000, env=G1)],
+     [dict(name="TestC17", quick=20000, thorough=60000, env=G1),
+      dict(name="TestC17Nitro", pkg="nitrocheck", quick=500, thorough=4000, steps=50)],
      rule="Same generator as C16; every script ends with all tokens released. Oracle at quiescence (all threads finished): destructor calls == FlushSession calls, "
           "GetStats freed == allocated-1 and queued == 0; no timer involved. (C04 layer A adds: allocator live set == linked nodes + sentinels at quiescence.) "
-          "Non-trivial: >=2 flushes, both queue-insert and try-lock yield points were hit and a thread was pre-empted inside an operation. Distinct = hash of (scripts, schedule).",
+          "Non-trivial: >=2 flushes, both queue-insert and try-lock yield points were hit and a thread was pre-empted inside an operation. Distinct = hash of (scripts, schedule). "
+          "TestC17Nitro (second sentence of the property, on real instances with user-managed memory): sequential histories with iterator churn (refresh rates, explicit "
+          "Refresh, iterators held across deletes and collection), Open/NewIterator on fully released snapshots, same-epoch and cross-epoch deletes; after every step with "
+          "no iterator open the collection is awaited and the allocator's live set must be exactly node+item per physical version plus the sentinels; empty after Close. "
+          "Non-trivial there: a refresh or a dead-snapshot open happened in a history with a same-epoch delete or a collected version.",
      technique="generated scripts + schedules under a controlled scheduler, quiescence counters as oracle",
      design_ref="DESIGN.md §3 C17",
      level_text="Schedule-as-input exploration; liveness is judged only at true quiescence, which the scheduler knows exactly.",
